@@ -411,7 +411,8 @@ def extract_values(h, art, workdir, failed, cap_t, cap_mem):
     jpath = os.path.join(workdir, name + ".trace.json")
     for slicing in (["--slice-formula"], []):
         cb = base + slicing + [out, "--trace", "--json-ui", "--property", pick["pid"]]
-        run_stage(name + "#trace", cb, jpath, cap_t, cap_mem)
+        # building the trace needs noticeably more memory than deciding the formula: give it headroom
+        run_stage(name + "#trace", cb, jpath, cap_t, max(cap_mem, 28))
         tv = _trace_values(jpath, pick["pid"])
         if tv:
             vals, expect = [], 1
